@@ -26,12 +26,12 @@ def reader_keys(ctx: Ctx) -> set[str]:
     f = ctx.func(YREAD, "parse_yaml_module")
     c = canon_function(f, ctx.model)
     keys: set[str] = set()
-    loops = [lp for lp in atoms_of(c, lambda x: x[0] == "for" and len(x) == 5) if lp[2] == ("c", ("a", ("p", 1), "items"), (), ())]
+    from .common import eq_constants, dict_loops
+    loops = dict_loops(c, ("p", 1))
     if len(loops) != 1:
         raise AnalysisError("parse_yaml_module: key dispatch loop not found")
-    kv = loops[0][1][1][0]
-    from .common import eq_constants
-    for st in atoms_of(loops[0][3], lambda x: x[0] == "if" and len(x) == 4):
+    kv = loops[0][1]
+    for st in atoms_of(loops[0][0][3], lambda x: x[0] == "if" and len(x) == 4):
         ks = eq_constants(st[1], kv)
         if ks is None:
             from framelint.canon import mk_not as _mk_not
@@ -433,8 +433,10 @@ def r8(ctx: Ctx) -> None:
     outm = [st[1] for st in cm if st[0] == "set" and st[2] == ("list", ())]
     ctx.site(fm.where, "every module entry is parsed with its own name and appended in document order")
     ok = False
-    if len(outm) == 1 and lm[2] == ("c", ("a", ("p", 0), "items"), (), ()) and lm[1][0] == "tuple" and len(lm[1][1]) == 2 and cm[-1] == ("ret", outm[0]):
-        name, info = lm[1][1]
+    from .common import dict_loops
+    dl = [x for x in dict_loops(cm, ("p", 0), top_only=True) if x[0] == lm]
+    if len(outm) == 1 and dl and cm[-1] == ("ret", outm[0]):
+        _, name, info = dl[0]
         ok = _unconditional_appends(lm[3], outm[0]) == [("c", ("g", "parse_yaml_module"), (name, info), ())]
     if not ok:
         ctx.report(fm.where, "modules-decode", "parse_yaml_modules does not parse every (name, description) pair with parse_yaml_module(name, description) in order",
@@ -460,8 +462,9 @@ def r8(ctx: Ctx) -> None:
     ln = _only_loop(cn, "parse_yaml_netlist")
     ctx.site(fn.where, "section 'Modules' -> parse_yaml_modules, section 'Nets' -> parse_yaml_edges, returned as (modules, nets)")
     ok = False
-    if ln[1][0] == "tuple" and len(ln[1][1]) == 2 and cn[-1][0] == "ret" and cn[-1][1][0] == "tuple" and len(cn[-1][1][1]) == 2:
-        key, val = ln[1][1]
+    dl = [x for x in dict_loops(cn, None, top_only=True) if x[0] == ln]
+    if dl and cn[-1][0] == "ret" and cn[-1][1][0] == "tuple" and len(cn[-1][1][1]) == 2:
+        key, val = dl[0][1], dl[0][2]
         mv, ev = cn[-1][1][1]
         kM, kN = k_str(kw_value(ctx, "KW_MODULES")), k_str(kw_value(ctx, "KW_NETS"))
         sets = {}
